@@ -97,15 +97,15 @@ func genC13(t *rapid.T) C13Case {
 var c13Counter int64
 
 type c13Run struct {
-	svc      *varlink.Service
-	names    []string
-	descs    map[string]string
-	builtin  string
-	haveBI   bool
-	fake     *FakeListener
-	addr     string
-	done     chan error
-	cancel   context.CancelFunc
+	svc       *varlink.Service
+	names     []string
+	descs     map[string]string
+	builtin   string
+	haveBI    bool
+	fake      *FakeListener
+	addr      string
+	done      chan error
+	cancel    context.CancelFunc
 	listening bool
 }
 
@@ -357,8 +357,10 @@ type C13ResCase struct {
 
 type resolverIface struct{ c C13ResCase }
 
-func (r *resolverIface) VarlinkGetName() string        { return "org.varlink.resolver" }
-func (r *resolverIface) VarlinkGetDescription() string { return "interface org.varlink.resolver\nmethod Resolve(interface: string) -> (address: string)\n" }
+func (r *resolverIface) VarlinkGetName() string { return "org.varlink.resolver" }
+func (r *resolverIface) VarlinkGetDescription() string {
+	return "interface org.varlink.resolver\nmethod Resolve(interface: string) -> (address: string)\n"
+}
 func (r *resolverIface) VarlinkDispatch(ctx context.Context, c varlink.Call, m string) error {
 	switch m {
 	case "GetInfo":
